@@ -58,6 +58,25 @@ Definition c03_ok (items : list item) (h : hist) (terminated : bool) : bool :=
                                                            | _ => false end) es
                        | _ => true end) es.
 
+(* ... and once the run has ended NOTHING the parser yielded is missing: every feature item was ingested and every parser
+   error delivered — up to and including the first error when fail-fast is on (ingestion stops there), all of them
+   otherwise. (The clauses above compare the stream with a PREFIX of the items, as they must while the run is going on:
+   a review pointed out that a finished run that dropped a parser error and a whole feature passed them.) *)
+Fixpoint items_until_stop (ff : bool) (items : list item) : list item :=
+  match items with
+  | [] => []
+  | IError x :: t => IError x :: (if ff then [] else items_until_stop ff t)
+  | i :: t => i :: items_until_stop ff t
+  end.
+Definition c03_complete_ok (ff : bool) (items : list item) (h : hist) : bool :=
+  let consumed := items_until_stop ff items in
+  let errs := flat_map (fun e => match e with EvParseErr i => [i] | _ => [] end) (events_of h) in
+  Nat.eqb (n_feats h) (length (feature_items consumed))
+  && list_eqb N.eqb errs (flat_map (fun i => match i with IError x => [x] | _ => [] end) consumed)
+  && (* exactly one ParsingFinished, after every parser error *)
+     match filter (fun e => match e with EvParsingFinished _ _ _ _ _ => true | _ => false end) (events_of h) with
+     | [_] => true | _ => false end.
+
 (* ---------------- C04: exactly the supplied scenarios; termination ---------------- *)
 Definition supplied (items : list item) (h : hist) : list N :=
   flat_map (fun f => map ss_id (sf_scens f)) (ingested items h).
